@@ -7,15 +7,15 @@
 set -u
 ID=$1; DEMO=$2; shift 2; EXTRA="$@"
 export GOFLAGS=-mod=mod GOPROXY=off GOSUMDB=off GOTOOLCHAIN=local
-OUT=/verif/seeded/$ID; mkdir -p $OUT
-M=/tmp/mut_out/$ID
+OUT=/verif/seeded${ROUND:-}/$ID; mkdir -p $OUT
+M=/tmp/mut_out${ROUND:-}/$ID
 res() { echo "$1" | tee -a $OUT/confirm.log; }
 : > $OUT/confirm.log
 git -C /repo diff --quiet || { echo "/repo is dirty"; exit 2; }
 # 1
-(cd /tmp/m_$ID && go build ./... ) && res "changed tree builds: yes" || res "changed tree builds: NO"
-b=$(VERIF_REPO=/tmp/m_$ID python3 /tmp/baseline.py | head -1); res "baseline on changed tree: $b"
-TREE=/tmp/m_$ID; (eval "$DEMO") > $OUT/demo_changed.txt 2>&1; rc1=$?; res "demo on changed tree: exit $rc1 (expected non-zero)"
+(cd /tmp/m${ROUND:-}_$ID && go build ./... ) && res "changed tree builds: yes" || res "changed tree builds: NO"
+b=$(VERIF_REPO=/tmp/m${ROUND:-}_$ID python3 /tmp/baseline.py | head -1); res "baseline on changed tree: $b"
+TREE=/tmp/m${ROUND:-}_$ID; (eval "$DEMO") > $OUT/demo_changed.txt 2>&1; rc1=$?; res "demo on changed tree: exit $rc1 (expected non-zero)"
 # 2
 TREE=/repo; (eval "$DEMO") > $OUT/demo_pristine.txt 2>&1; rc2=$?; res "demo on pristine /repo: exit $rc2 (expected 0)"
 git -C /repo status --short | grep -v '^??' | head -3
